@@ -637,7 +637,7 @@ def report_grouped(ctx, label, cases, results, fails, check, tagger, rounds=4, m
     from .core import load_known
     known = [f.get('match', '') for f in load_known()]
     if ctx.quick:
-        rounds, max_groups = min(rounds, 2), min(max_groups, 3)
+        rounds, max_groups = min(rounds, 1), min(max_groups, 2)
     max_groups = int(os.environ.get('VERIF_SIG_MAXSHRINK', max_groups))     # development aid
     shrunk = 0
     for (tags, sig), members in sorted(groups.items()):
